@@ -96,7 +96,7 @@ class StubTest:
         self.table, self.u, self.conv = [float(x) for x in table], 1, conv      # conv: how the p-value is represented
 
     def test(self, d):
-        p = self.table[(len(d) + int(round(float(np.sum(d)) * 4))) % len(self.table)]
+        p = self.table[(len(d) + int(round(float(np.sum(d)) * 4)) + int(round(float(self.u) * 16))) % len(self.table)]   # data AND the bound u
         return PCONV[self.conv](p), np.array([min(1.0, p * (k + 1)) if not math.isnan(p) else p for k in range(len(d))][::-1])
 
     def __deepcopy__(self, memo):
@@ -226,6 +226,14 @@ def build_audit(rng, stub_rate=0.25):
                 asn.test = StubTest(conv=rng.choice(list(PCONV)), table=rng.sample([lim, lim, lim / 2, float(np.nextafter(lim, 1)), 0.0, 1.0, 0.75, float("nan"), 1.5,
                                                 lim / 4, 0.3], rng.randint(2, 5)))
         con.sample_threshold = rng.choice([1.0, 1.0, 1.0, 0.5, 0.75])
+        # one test object handed to several assertions (the test is a parameter of Assertion), their margins all different
+        if len(con.assertions) >= 2 and con.audit_type != A.Audit.AUDIT_TYPE.POLLING and rng.random() < 0.35:
+            group = rng.sample(list(con.assertions.values()), rng.randint(2, min(4, len(con.assertions))))
+            ms = rng.sample([0.25, 0.5, 0.75, 0.125, 0.9375, 0.375, 0.625], len(group))
+            for asn, m in zip(group, ms):
+                asn.margin = m * float(asn.assorter.upper_bound)
+                asn.test = group[0].test
+            dicts[n]["shared_test"] = len(group)
     if rng.random() < 0.04:
         rng.choice(list(contests.values())).audit_type = "BATCH_COMPARISON"       # not implemented: set_p_values raises
     return audit, contests, cvrs, dicts, honest
@@ -410,8 +418,23 @@ def run_sequence(rng, res, stats):
         ops = ["set", "sum", "reset", "set", "set", "sum", "reset"]
     else:
         ops = [rng.choice(["set", "sum", "reset"]) for _ in range(rng.randint(1, 6))]
+    if rng.random() < 0.3 and ops.count("set") < 2:
+        ops = ["set", "mutate", "set", "sum"]
+    elif rng.random() < 0.5 and ops.count("set") >= 2:                # the assertions of a contest change between two rounds
+        i = [k for k, o in enumerate(ops) if o == "set"][1]
+        ops = ops[:i] + ["mutate"] + ops[i:]
     first = True
+    cases = []
     for op in ops:
+        if op == "mutate":
+            how = mutate_assertions(rng, contests)
+            stats["mutations"][how] = stats["mutations"].get(how, 0) + 1
+            if case["steps"]:
+                cases.append(case)
+            # the model threads its own state through a case: a change made from outside starts a new case at the state read now
+            case = {"config": dict(case["config"], assertions_changed_between_rounds=how), "order": list(contests.keys()),
+                    "init": read_state(contests), "steps": []}
+            continue
         before = read_state(contests)
         if op == "set":
             # a later sample is sometimes much smaller / less favourable than the first (p-values go back up)
@@ -455,7 +478,33 @@ def run_sequence(rng, res, stats):
             case["steps"].append(s)
             oracle_reset(res, case, before, s)
             stats["reset"] += 1
-    return case
+    if case["steps"]:
+        cases.append(case)
+    return cases
+
+
+def mutate_assertions(rng, contests):
+    """Between two rounds a contest's assertions dict shrinks, grows or is re-keyed (no reset): preferably the assertion
+    with the largest recorded p-value is the one dropped / re-keyed."""
+    cands = [c for c in contests.values() if len(c.assertions) >= 2] or list(contests.values())
+    con = rng.choice(cands)
+    keys = list(con.assertions)
+
+    def pv(k):
+        v = float(con.assertions[k].p_value)
+        return -1.0 if math.isnan(v) else v
+    top = max(keys, key=pv) if rng.random() < 0.7 else rng.choice(keys)
+    how = rng.choice(["drop", "rekey", "grow"] if len(keys) >= 2 else ["rekey", "grow"])
+    if how == "drop":
+        del con.assertions[top]
+    elif how == "rekey":
+        con.assertions[str(top) + " (renamed)"] = con.assertions.pop(top)
+    else:
+        new = copy.deepcopy(con.assertions[top])
+        new.contest = con
+        new.p_value, new.p_history, new.proved = 1, [], False
+        con.assertions[str(top) + " (second copy)"] = new
+    return how
 
 
 def run_poked(rng, res, stats):
@@ -671,10 +720,10 @@ def run(ctx, res):
     # line-by-line reading is proved equal to the model of Status.v (coq/gen/GenProofs_status_skeletons.v)
     genarith.regenerate(ctx.pid, "status_skeletons", res)
     stats = {"set": 0, "sum": 0, "reset": 0, "set_raises": 0, "sum_true": 0, "poked_single_offender": 0, "many_assertions": [],
-             "many_summaries": 0}
+             "many_summaries": 0, "mutations": {}}
     cases = []
     for _ in range(ctx.n(240, 3000)):
-        cases.append(run_sequence(rng, res, stats))
+        cases.extend(run_sequence(rng, res, stats))
     for _ in range(ctx.n(300, 4000)):
         cases.append(run_poked(rng, res, stats))
     for nw in ([1, 1, 2, 3, 6] if ctx.quick else [1, 1, 1, 2, 2, 3, 3, 4, 6, 8]):   # 24 .. ~200 (quick) / ~280 assertions
